@@ -57,7 +57,7 @@ theorem root_region {Fs s1 : LState F} {r : Root F} {b : Expr F} {dr : Nat}
       have ht := (hrRef id hk).2
       have hd0 := hrT.2.2 id hk
       -- the body does not end with `EndExpression`, so the terminator is pushed
-      obtain ⟨i, d, hi, hcl⟩ := last_cases Fs.toProg r.patch r.containing b s1.instrs.size hlocb hwfb
+      obtain ⟨i, d, hi, hcl⟩ := last_cases Fs.toProg r.patch r.containing b s1.instrs.size hlocb (wfE_wfC b hwfb)
       have hlast : s2.instrs.back? = some (i, d) := by
         rw [Array.back?_eq_getElem?, z2, ← hi, toProg_instrs,
           ev'.instrs _ (by have := pT.isize; omega), pT.instrs _ (by omega)]
